@@ -2,10 +2,16 @@
    option, unit, list, prod, sumbool map to OCaml's; nat, positive, N, Z stay
    inductive).  The entry points fix the generated tables. *)
 From Coq Require Import Extraction ExtrOcamlBasic.
-From YV Require Import PyBase CharTables Replace.
+From YV Require Import PyBase CharTables Replace Checks.
 
 Definition m_replace_phrases := replace_phrases py_isspace py_isalpha py_word.
 Definition m_finditer := finditer py_isalpha py_word.
 Definition m_parse_rule := parse_rule py_isspace.
 
-Extraction "../_build/model.ml" m_replace_phrases m_finditer m_parse_rule.
+Definition m_single_letter_matches :=
+  single_letter_matches py_isalpha py_word.
+Definition m_equation_messages := equation_messages py_word py_res py_islower.
+Definition m_create_context := create_context.
+
+Extraction "../_build/model.ml" m_replace_phrases m_finditer m_parse_rule
+  m_single_letter_matches m_equation_messages m_create_context.
